@@ -27,7 +27,7 @@ CLAIMED = {
              text="Structure (length classes L mod block, number of blocks, L mod 8, spill boundary, over-long bit lengths, counters preset across 2^32/2^64) is enumerated: quick = boundary sets, thorough = every L in 0..3B; message content is seeded.  Every recorded digest (value and length) or refusal is judged by TLC against sys/HashObj over prim/Md4, Md5, Sha1, Sha2, themselves validated against hashlib/OpenSSL/RFC vectors at setup.",
              ref="DESIGN.md section 7 C01"),
  'C14': dict(tech="TLC: hash object with symbolic injective compression (all cut sets up to 3.5 blocks: idle state = fold of fed blocks, piecewise = one-shot) + every TLC-generated call history replayed on real MD4/MD5/SHA-1/SHA-2/BLAKE objects and trace-validated step by step",
-             text="All call histories of depth 3 (quick) / 4 (thorough) over the alphabet continue(0..2 blocks)/bad continuation/final(0..1 blocks x 5 residue classes)/over-long/re-init, on 14 hash objects round-robin, seeded data; TLC recomputes the chaining value, the bit counter after each piece and the final digest with the real compression functions, so the digest is compared with the standard's digest of the whole message.",
+             text="All call histories of depth 3 (quick) / 4 (thorough) over the alphabet continue(0..2 blocks)/bad continuation/final(0..1 blocks x 5 residue classes)/over-long/re-init, on 14 hash objects round-robin plus BLAKE2b/2s objects, seeded data; TLC recomputes the chaining value, the bit counter after each piece and the final digest with the real compression functions, so the digest is compared with the standard's digest of the whole message.",
              ref="DESIGN.md section 7 C14"),
 
  'C13': dict(tech="TLC: key-register design over a symbolic hash (all key lengths 0..3B: one block, three branches, no trace of the old key) + TLC trace validation of HMAC objects over all 14 block hashes, evaluating RFC 2104 over the TLA+ hash specifications",
@@ -44,6 +44,10 @@ CLAIMED = {
  'C05': dict(tech="TLC: SP 800-38A modes over a toy cipher model-checked on every message of 0..7 bytes (round trip, domain, shape, counter blocks incl. wrap) + the same complete space replayed on the real ECB/CBC/CTR/CTS classes over the same toy cipher and a residue grid over the real ciphers, every result trace-validated by TLC",
              text="Mode logic is decided exhaustively for small messages: the real mode classes run over a Python object implementing the specification's toy cipher and every ciphertext/plaintext is compared by TLC (2- and 4-byte blocks, all admissible paddings, IV classes, counter halves at 0/max-1/max).  With the real ciphers (AES-128/192/256, DES, TDEA, Serpent, Threefish-256/512/1024) keys/IVs are random and lengths cover every residue class boundary over 0..3 blocks; CTS is held to length, IV prefix and round trip.",
              ref="DESIGN.md section 7 C05"),
+
+ 'C11': dict(tech="TLC: counter-carrying hash object and BLAKE padding model-checked with symbolic compression; TLC trace validation recomputing every BLAKE-224..512 and BLAKE2b/2s digest from TLA+ transcriptions of the BLAKE submission and RFC 7693 (validated against official vectors and hashlib incl. all parameters)",
+             text="BLAKE: length classes around 0, B-2w, B, 2B (quick) / every bit length 0..2B+8 (thorough), all L mod 8, salt classes, over-long bit lengths, counters preset across the word boundary.  BLAKE2: length grid 0..4 blocks, digest lengths (boundary / every), salt, personalization, fanout, depth, leaf length, node offset, node depth, inner length at range ends, out-of-range digest lengths rejected; singleton and fresh objects.  Content is seeded.",
+             ref="DESIGN.md section 7 C11"),
 }
 PENDING = "check not built yet in this tree (specification modules are being written; see DESIGN.md section 12 build order) - not claimed until its quick command runs clean"
 def main():
